@@ -536,6 +536,10 @@ def length(R):
         ok = True
         for d in ds:
             v = d.ast.value if isinstance(d.ast, ast.Assign) else None
+            if isinstance(v, ast.Name):
+                to = rd.tuple_origin(d, v)           # decoded into a local first
+                if to is not None:
+                    v = to[0]
             bits = C04._bits(v, {x.id for x in ast.walk(v) if isinstance(x, ast.Name) and x.id not in ('bool', 'int')}) \
                 if v is not None else None
             if bits is not None and bits[1:] == (0, 127):
